@@ -72,7 +72,14 @@ fn base_config(seed: u64, k: usize, big: bool) -> Base {
         ports: match protocol {
             Protocol::Icmp => 0,
             Protocol::Udp => 1,
-            Protocol::Tcp => 2,
+            // TCP: fixed destination port (the default) and fixed source port
+            Protocol::Tcp => {
+                if ((k / 3) % 2 == 1) != ((k / 6) % 2 == 1) {
+                    1
+                } else {
+                    2
+                }
+            }
         },
         unprivileged,
         ext: false,
